@@ -417,6 +417,50 @@ def gen_big_trunc(rnd, cases, n):
         cases.append({'lines': lines, 'tags': {'family': 'big-truncate'}})
 
 
+def gen_nonmonotone(rnd, cases, n):
+    """boundary of the premise 'strictly increasing timestamps / file named later than its entries': the sender's clock does
+    not advance between two relays (equal timestamps), steps back by 1 s .. 1 h, rotations in the same second (denied:
+    'never overwrite') and right after a step back (file named earlier than an entry in it), acknowledgement + clean-up"""
+    for _ in range(n):
+        t = T0 + 1000
+        lines = ['now %d' % t, 'rl_init dur=86400,86400,86400,86400,86400,86400']
+        mid = 0
+        e = rnd.choice((1, 1, 2, 3, 5))
+        stamps = []
+        bad = False
+        for i in range(rnd.choice((2, 3, 4, 6))):
+            dt = rnd.choice((0, 0, -1, -1, -5, -100, -3600, 1, 1, 2, 7))
+            if i == 0:
+                dt = rnd.choice((1, 5))
+            if dt <= 0:
+                bad = True
+            t += dt
+            mid += 1
+            lines += ['now %d' % t, 'rl_relay sec=%s id=%d' % (rnd.choice(('-', '-', 'om', 'oa', 'ob', 'zm')), mid)]
+            stamps.append(t)
+            r = rnd.random()
+            if r < 0.25:
+                lines += ['rl_rotate', 'rl_ls']
+                if rnd.random() < 0.5:
+                    lines += ['rl_rotate', 'rl_ls']          # twice in the same second: denied
+            elif r < 0.32:
+                lines += ['rl_ls', 'rl_restart clean=%d' % rnd.randint(0, 1), 'rl_ls']
+        if not bad:
+            mid += 1
+            lines += ['rl_relay sec=- id=%d' % mid]     # same clock reading as the previous event
+            stamps.append(t)
+        t = max(stamps) + rnd.choice((1, 3, 20))
+        lines += ['now %d' % t, 'rl_ls', 'rl_conn e=%d' % e, 'rl_ls']
+        if rnd.random() < 0.5:
+            p = rnd.choice(stamps) + rnd.choice((0, 1, -1))
+            t += 5
+            lines += ['rl_ack e=%d p=%d' % (e, p), 'rl_disc e=%d' % e, 'now %d' % t, 'rl_ls', 'rl_timer', 'rl_ls']
+            mid += 1
+            t += 1
+            lines += ['now %d' % t, 'rl_relay sec=- id=%d' % mid, 'now %d' % (t + 2), 'rl_ls', 'rl_conn e=%d' % e, 'rl_ls']
+        cases.append({'lines': lines, 'tags': {'family': 'nonmonotone-clock'}})
+
+
 def generate(seed, tier):
     rnd = random.Random(seed)
     cases = []
@@ -432,6 +476,7 @@ def generate(seed, tier):
     gen_sizes(rnd, cases, 'quick' if tier in ('quick', 'search') else tier)
     gen_big_history(rnd, cases, {'quick': 40, 'thorough': 300, 'search': 60}.get(tier, 40), 'quick' if tier in ('quick', 'search') else tier)
     gen_big_trunc(rnd, cases, {'quick': 20, 'thorough': 150, 'search': 30}.get(tier, 20))
+    gen_nonmonotone(rnd, cases, {'quick': 150, 'thorough': 1500, 'search': 300}.get(tier, 150))
     return cases
 
 
